@@ -739,6 +739,24 @@ end HmmDet
 /-! ### producing side of hmm_detection: get_ruleset multipliers, the gene-less early exit of
     detect_protoclusters_and_signatures, run_on_record -/
 
+/-- a detection rule as far as rule-set selection goes: its name, the first strictness level whose
+    rule file defines it (0 strict, 1 relaxed, 2 loose) and its category -/
+structure RuleInfo where
+  name : String
+  level : Nat
+  category : String
+deriving DecidableEq, Repr, Inhabited
+
+def strictnessIndex (s : String) : Nat :=
+  if s == "strict" then 0 else if s == "relaxed" then 1 else 2
+
+/-- `get_ruleset(options).get_rule_names()`: the rules of every rule file up to the requested
+    strictness, limited to `--hmmdetection-limit-to-rule-names` / `…-categories` when given.  The
+    result depends on the strictness whatever was asked for earlier in the process (no stale cache). -/
+def rulesetNames (rules : List RuleInfo) (strictness : String) (limitNames limitCats : List String) : List String :=
+  ((rules.filter fun r => decide (r.level ≤ strictnessIndex strictness)).filter fun r =>
+      (limitNames.isEmpty || limitNames.contains r.name) && (limitCats.isEmpty || limitCats.contains r.category)).map (·.name)
+
 /-- `get_ruleset(options).multipliers`: the defaults unless the taxon is fungi -/
 def rulesetMultipliers (o : HmmOpts) : Dec × Dec :=
   if o.fungi then (o.cutoffMult, o.neighMult) else (Dec.one, Dec.one)
